@@ -439,11 +439,15 @@ SequenceScore(p, S, optBg, pc) ==
 
 \* TLC's integers are 32 bit: the products of the helpers must stay below 2^30
 Limit == 1073741824
+ProductFits(p, bm, pc) ==
+  LET f == [i \in DOMAIN p.rows |-> p.k * (SeqSum(p.rows[i]) + pc) * bm + 1]
+  IN FoldLeft(LAMBDA acc, x : IF acc = -1 \/ acc > Limit \div x THEN -1 ELSE acc * x, 1, f) # -1
+\* sequence_score: numerators and denominators of the odds are bounded by k (sum + pc) max(b_num, b_den)
 Dom_ProductFits(p, optBg, pc) ==
   LET bg == Background(p, optBg)
-      bm == SeqMax([j \in DOMAIN bg |-> IF bg[j][1] > bg[j][2] THEN bg[j][1] ELSE bg[j][2]])
-      f  == [i \in DOMAIN p.rows |-> p.k * (SeqSum(p.rows[i]) + pc) * bm + 1]
-  IN FoldLeft(LAMBDA acc, x : IF acc = -1 \/ acc > Limit \div x THEN -1 ELSE acc * x, 1, f) # -1
+  IN ProductFits(p, SeqMax([j \in DOMAIN bg |-> IF bg[j][1] > bg[j][2] THEN bg[j][1] ELSE bg[j][2]]), pc)
+\* sequence_probability: no background involved
+Dom_ProbProductFits(p, pc) == ProductFits(p, 1, pc)
 
 Law_Probabilities(p, pc) ==
   (WellFormedProfile(p) /\ Dom_Counts(p) /\ pc >= 0) =>
